@@ -1,6 +1,6 @@
 (* C04 - correspondence: what the harness (harness/cmd/views) observed on the linker's descriptors and on the
    Go runtime's descriptors, checked against Model/FieldView.v and Model/RuntimeSpec.v inside coqc. *)
-From Coq Require Import List NArith Bool.
+From Coq Require Import List NArith ZArith Bool String.
 From PV Require Import Common.Corr Model.FeaturesTables Model.Features Model.FieldView Model.RuntimeSpec.
 Import ListNotations.
 Open Scope N_scope.
@@ -21,7 +21,7 @@ Fixpoint list_opt_N_eqb (a b : list (option N)) : bool :=
 
 (* required numbers are a set (FieldNumbers.Has); compare without order *)
 Definition same_set (a b : list N) : bool :=
-  Nat.eqb (length a) (length b) && forallb (fun x => N_mem x b) a && forallb (fun x => N_mem x a) b.
+  Nat.eqb (List.length a) (List.length b) && forallb (fun x => N_mem x b) a && forallb (fun x => N_mem x a) b.
 
 (* the attribute vector of one field: Cardinality Kind HasPresence IsPacked HasOptionalKeyword IsMap IsList *)
 Record fobs := mkobs { o_card : N; o_kind : N; o_pres : bool; o_packed : bool; o_optkw : bool; o_map : bool; o_list : bool }.
@@ -45,6 +45,9 @@ Inductive view_case :=
 | VFieldAll (f : field) (lk : fobs) (feat : list (option N)) (rt : option fobs) (wf : bool)
 | VMsgAll (fields : list field) (lkreq : list N) (rtreq : option (list N))
 | VEnumAll (e : N) (c : chain) (lkclosed : bool) (feat : list (option N)) (rtclosed : option bool) (wf known : bool)
+(* Default() of a singular field of an integer kind: the kind, the default_value text of the compiled proto,
+   what the linker's descriptor says, what the runtime's says (None when the runtime rejected the file) *)
+| VDefInt (k : N) (text : option string) (lk : Z) (rt : option Z)
 (* linker.File: Cardinality Kind HasPresence IsPacked HasOptionalKeyword IsMap IsList of one field *)
 | VField (f : field) (card kind : N) (pres packed optkw ismap islist : bool)
 (* protodesc.NewFile: the same attributes of the same field *)
@@ -85,6 +88,9 @@ Definition views_chk (c : view_case) : bool :=
       (rt_cardinality f =? card) && (rt_kind f =? k) && Bool.eqb (rt_has_presence f) pres
       && Bool.eqb (rt_is_packed f) packed && Bool.eqb (rt_has_optional_keyword f) optkw
       && Bool.eqb (rt_is_map f) ismap && Bool.eqb (rt_is_list f) islist
+  | VDefInt k text lk rt =>
+      Z.eqb (default_int k text) lk
+      && match rt with Some v => match rt_default_int k text with Some w => Z.eqb v w | None => false end | None => true end
   | VFeat e ch feat => list_opt_N_eqb (map (protoutil_resolve_feature e ch) all_features) feat
   | VEnum e ch closed => Bool.eqb (is_closed e ch) closed
   | VEnumRt e ch closed => Bool.eqb (rt_is_closed e ch) closed
